@@ -31,6 +31,8 @@ def run(cx):
     r3(cx)
     r4(cx)
     r5(cx)
+    cx.rule("C16.R6", "K2", "Context::dispatch_act opens the act it is given: every Ok return of a call on a started task lies behind create_task + push of exactly that act (no \"already there\" shortcut: a hook act still open from the last firing is no reason to drop this firing)")
+    r6_dispatch_creates(cx)
 
 
 def natural_loops(f):
@@ -357,3 +359,19 @@ def r5(cx):
     cx.ob("C16.R5", "dispatch:one-task", len(ct) == 1 and len(pu) == 1 and not any(ct[0].b in body for _, body in loops),
           "dispatch_act creates and pushes exactly one task", d.loc())
     cx.floor("C16.R5", 2)
+
+
+def r6_dispatch_creates(cx):
+    from rules.c01 import exact_guards
+    m = cx.m
+    pa = Prov(m, "alias")
+    f = m.one(r"^acts::scheduler::context::Context::dispatch_act$")
+    ct = [c for c in f.calls() if c.q.endswith("Process::create_task")]
+    ps = [c for c in f.calls() if c.q == T.Q_PUSH]
+    ok = len(ct) == 1 and len(ps) == 1 and f.dominates(ct[0].b, ps[0].b) and pa.root(f, ps[0].args[1]) == ("call", ct[0].q, ct[0].b, ())
+    cx.ob("C16.R6", "dispatch_act:creates-and-pushes", ok, "dispatch_act creates one task for the act's node and pushes that task to the scheduler", (ps or ct or [None])[0].loc if (ps or ct) else f.loc())
+    if ok:
+        # the only reason not to open the act is that the dispatching task itself has not started (state None)
+        exact_guards(cx, "C16.R6", "dispatch_act:unconditional", f, ps[0].b, required=[r"^TaskState::is_none=False$"], allowed=[r"^match\(.*branch.*\)=Continue$", r"^var:is_hook_event="],
+                     what="the act is opened whenever the dispatching task has started - whatever else the process contains", loc=ps[0].loc)
+    cx.floor("C16.R6", 2)
